@@ -94,6 +94,48 @@ def _o_spec(o):
     return out
 
 
+def _other_mapping(rng, m, default_factory):
+    """The same label table held as another kind of mapping: tables are often built with ``defaultdict`` (whose
+    ``__getitem__`` succeeds -- and inserts -- for absent keys), handed over read-only, or layered."""
+    import collections
+    import types
+
+    kind = rng.choice(["defaultdict", "defaultdict", "proxy", "chainmap", "userdict", "ordered"])
+    if kind == "defaultdict":
+        d = collections.defaultdict(default_factory)
+        d.update(m)
+        return kind, d
+    if kind == "proxy":
+        return kind, types.MappingProxyType(dict(m))
+    if kind == "chainmap":
+        return kind, collections.ChainMap({}, dict(m))
+    if kind == "userdict":
+        return kind, collections.UserDict(m)
+    return kind, collections.OrderedDict(m)
+
+
+def mapping_kinds_agree(ctx, fn, args, kw, names, factories, spec, what):
+    """Relational: the call with each mapping option held as another Mapping type answers the same, and the
+    caller's table has the same keys afterwards."""
+    present = [n for n in names if kw.get(n) is not None]
+    if not present:
+        return
+    st, v = calling.outcome(fn, *args, **kw)
+    kw2, kinds = dict(kw), {}
+    for n in present:
+        kinds[n], kw2[n] = _other_mapping(ctx.rng, kw[n], factories[n])
+    before = {n: sorted(map(repr, kw2[n].keys())) for n in present}
+    st2, v2 = calling.outcome(fn, *args, **kw2)
+    ctx.mon("mapping_kinds")
+    same = st == st2 and (st != "ok" or (list(v) == list(v2) if isinstance(v, (list, tuple)) else v == v2))
+    if not same:
+        ctx.violate(f"{what}:cascade", f"{what}:other_mapping_type_answers_differently", observed=[st2, repr(v2)[:160]], expected=[st, repr(v)[:160]], spec=dict(spec, mapping_kinds=kinds))
+        return
+    after = {n: sorted(map(repr, kw2[n].keys())) for n in present}
+    if after != before:
+        ctx.violate(f"{what}:cascade", f"{what}:callers_mapping_modified", observed=after, expected=before, spec=dict(spec, mapping_kinds=kinds))
+
+
 def judge_label_to_tags(ctx, label, o):
     from soundevent.io.crowsetta import labels as L
 
@@ -105,6 +147,9 @@ def judge_label_to_tags(ctx, label, o):
     except Exception as e:
         ctx.violate_exc("label_to_tags:raises", f"label_to_tags:raises:{type(e).__name__}", e, spec=spec)
         return
+    if ctx.every(spec, 2):
+        mapping_kinds_agree(ctx, L.label_to_tags, (label,), _mk_label_kwargs(o), ("tag_mapping", "term_mapping", "key_mapping"),
+                            {"tag_mapping": list, "term_mapping": lambda: __import__("soundevent").data.term_from_key("mapped_term"), "key_mapping": lambda: "defaulted"}, spec, "label_to_tags")
     if want is AMBIG:
         ctx.dc("label_cascade_documentation_ambiguous")
         return
@@ -188,6 +233,8 @@ def judge_label_from_tags(ctx, tagspec, o):
                 kt.pop("separator")
             calling.agree(ctx, "label_from_tag", L.label_from_tag, dict(tag=tags[0], **{k: v for k, v in kt.items() if k != "separator"}), spec,
                           variants={"boolish_value_only": {"value_only": calling.boolish(ctx.rng, kt["value_only"])}} if "value_only" in kt else None)
+    if ctx.every(spec, 2):
+        mapping_kinds_agree(ctx, L.label_from_tags, (tags,), _mk_from_kwargs(o), ("label_mapping",), {"label_mapping": lambda: "DEFAULTED"}, spec, "label_from_tags")
     if want is AMBIG:
         ctx.dc("select_by_key_with_explicit_value_only_false")
         return
